@@ -94,6 +94,14 @@ theorem wait_within_period (b : Backoff) (r : Nat) : (b.advance r).2 ≤ b.next 
       have := Nat.mod_lt r hpos
       omega
 
+/-- with uniform jitter and a non-zero period the wait is strictly below the period (`gen_range(0..period)`) -/
+theorem jitter_wait_below_period (b : Backoff) (r : Nat) (hj : b.jitter = true) (hp : b.next ≠ 0) : (b.advance r).2 < b.next := by
+  simp only [Backoff.advance, hj, hp]
+  have hpos : 0 < min b.next u64Max := by simp only [u64Max]; omega
+  have := Nat.mod_lt r hpos
+  simp
+  omega
+
 theorem wait_never_exceeds_max (k : Nat) (b : Backoff) (rs : List Nat) (r : Nat) (hm : b.max ≤ durationMaxNs) (hn : b.next ≤ b.max) :
     ((advanceN k b rs).advance r).2 ≤ b.max := by
   have h := next_after k b rs hm hn
